@@ -278,6 +278,8 @@ func c05Match(c *vrep.Ctx) {
 		docs = vDocPool(c.Pick(8, 40))
 	case "notices":
 		docs = vDocPool(c.Pick(4, 24))
+	case "prefixquote":
+		docs = vDocPool(c.Pick(3, 12))
 	case "longwords":
 		// short documents (the long word is what varies)
 		var small []vDoc
@@ -295,7 +297,7 @@ func c05Match(c *vrep.Ctx) {
 		scNames = append(scNames, n)
 	}
 	sort.Strings(scNames)
-	c.R.Rule = fmt.Sprintf("Match level, mode %s: documents in OOV context x %d transform kinds (global: all eligible lines; perline: one line at a time on documents of <=30 lines; pairs: all ordered pairs of kinds; scenarios: the 41 scenario files; notices: a copyright notice with quotes / apostrophes / hyphens in its lead in front of the document; longwords: one word of every length 60..300 bytes made of quoted / hyphenated pieces before or inside the document); multiset of (type, name, variant, confidence, token span, mapped lines) must be equal; non-trivial = distinct (document, transform...) cases where the untransformed input has a non-Copyright match and the transform changed the bytes", mode, len(vTransforms))
+	c.R.Rule = fmt.Sprintf("Match level, mode %s: documents in OOV context x %d transform kinds (global: all eligible lines; perline: one line at a time on documents of <=30 lines; pairs: all ordered pairs of kinds; scenarios: the 41 scenario files; notices: a copyright notice with quotes / apostrophes / hyphens in its lead in front of the document; longwords: one word of every length 60..300 bytes made of quoted / hyphenated pieces before or inside the document; prefixquote: the document behind about 2^10..2^13 distinct words, one of two identical quoted lines in front transformed); multiset of (type, name, variant, confidence, token span, mapped lines) must be equal; non-trivial = distinct (document, transform...) cases where the untransformed input has a non-Copyright match and the transform changed the bytes", mode, len(vTransforms))
 	c.Bound("documents", len(docs))
 	c.Bound("mode", mode)
 	body := func(r *vx.Run) {
@@ -308,6 +310,31 @@ func c05Match(c *vrep.Ctx) {
 			d := docs[r.Choose(len(docs), "doc")]
 			base = vOOVBlock(2, 5, 0) + string(d.Bytes) + "\n" + vOOVBlock(1, 4, 30)
 			id = d.Key
+			if mode == "prefixquote" {
+				// two identical lines with a quoted word, then a run of N pairwise different words (lines
+				// of 9), then the document; ONE of the two quoted lines is transformed (a spelling more or
+				// less among the words seen before the document); N lies a little below a power of two
+				var ns []int
+				for _, b := range []int{1024, 2048, 4096, 8192} {
+					for _, k := range []int{20, 45, 90} {
+						ns = append(ns, b-k)
+					}
+				}
+				n := ns[r.Choose(len(ns), "prefix words")]
+				var sb strings.Builder
+				sb.WriteString(vOOVBlock(2, 5, 0))
+				sb.WriteString("see the \"zqquoted\" entry of 'zqother' - twice\nsee the \"zqquoted\" entry of 'zqother' - twice\n")
+				for i := 0; i < n; i++ {
+					sb.WriteString(vDistinctOOV(i))
+					if i%9 == 8 || i == n-1 {
+						sb.WriteByte('\n')
+					} else {
+						sb.WriteByte(' ')
+					}
+				}
+				base = sb.String() + string(d.Bytes) + "\n" + vOOVBlock(1, 4, 30)
+				id = fmt.Sprintf("%s|behind %d distinct words", d.Key, n)
+			}
 			if mode == "longwords" {
 				// ONE white-space free word of every length 60..300 bytes full of quotes, apostrophes and
 				// hyphens (a minified manifest, an attribute list) on the line before the document or in
@@ -346,6 +373,10 @@ func c05Match(c *vrep.Ctx) {
 		if mode == "perline" {
 			nl := strings.Count(base, "\n") + 1
 			only = r.Choose(nl, "line")
+			id += fmt.Sprintf("@line%d", only)
+		}
+		if mode == "prefixquote" {
+			only = 2 + r.Choose(2, "which quoted line")
 			id += fmt.Sprintf("@line%d", only)
 		}
 		if r.Scout() {
